@@ -35,7 +35,7 @@ RULE = ("random orthogonal cells 3-8 A with 1-12 atoms of mixed Z, positions any
 CLAUSES = ["shift-infinite", "shift-finite", "tile-array-vs-supercell", "crystal-vs-supercell", "crystal-vs-tile",
            "tile-geometry", "subpixel-mean"]
 QUICK = dict(n=150, time=45)
-THOROUGH = dict(n=4800, time=330, shards=16)
+THOROUGH = dict(n=27910, time=480, shards=16)
 
 LIGHT = ["C", "O", "N", "Si", "Al", "S"]
 
